@@ -88,11 +88,36 @@ def replay(rec, case):
         zyg = Zygote()
         try:
             want = [["ok", zyg.reference(d)] for d in i["calls"]]
-            r = zyg.concurrent(i["calls"], loc_points=[tuple(p) for p in i["loc_points"]])
+            r = zyg.concurrent(i["calls"], loc_points=[tuple(p) for p in i["loc_points"]], third_party=i.get("third_party", False))
             if r.get("outcomes") != want:
                 rec.fail("interference|replay|cold-start", "concurrent_equals_alone", i, want, r.get("outcomes", r))
         finally:
             zyg.close()
+        return
+    if i.get("burst"):
+        import random
+        from ..lib import IBAN, SchwiftyException
+        g, o = gen(), oracle()
+        A = i["calls"][0]
+
+        def burst(seed_):
+            r = random.Random(seed_)
+            bad = 0
+            for _ in range(int(i["burst"])):
+                try:
+                    IBAN(g.iban(r.choice(o.countries()), r))
+                except SchwiftyException:
+                    bad += 1
+            return bad
+        want = make_call(A)()
+        make_call(A)()
+        for k in range(3):
+            got, _ = sched.run_concurrently([make_call(A), lambda: burst(i["burst_seed"] + k)], [], repo_root(),
+                                            loc_points=[tuple(p) for p in i["loc_points"]], untraced={1})
+            if tuple(got[0]) != ("ok", want) or tuple(got[1]) != ("ok", 0):
+                rec.fail("interference|replay|burst-while-paused", "concurrent_equals_alone", i, [["ok", want], ["ok", 0]],
+                         [list(x) for x in got])
+                return
         return
     if i.get("loc_points"):
         # same pre-state as in the exploration (calls run alone, call 0 traced), and the schedule a few times in a row:
@@ -271,6 +296,15 @@ def national_calls(rng, cc):
     out.append({"op": "generate", "cc": cc, "bank_code": conforming(rng, fi["bank_code"][2], len(fi["bank_code"][2])),
                 "account_code": conforming(rng, fi["account_code"][2], len(fi["account_code"][2])),
                 "branch_code": conforming(rng, fi["branch_code"][2], len(fi["branch_code"][2]))})
+    # structurally different inputs of the same country: all-minimum BBAN, account with leading zeros / short account
+    out.append({"op": "iban", "text": g.iban(cc, rng, "min"), "validate_bban": True})
+    w = len(fi["account_code"][2])
+    if w > 3 and set(fi["account_code"][2]) <= set("nc"):
+        short = conforming(rng, fi["account_code"][2], w - 2)
+        out.append({"op": "generate", "cc": cc, "bank_code": conforming(rng, fi["bank_code"][2], len(fi["bank_code"][2])),
+                    "account_code": short, "branch_code": conforming(rng, fi["branch_code"][2], len(fi["branch_code"][2]))})
+        out.append({"op": "generate", "cc": cc, "bank_code": conforming(rng, fi["bank_code"][2], len(fi["bank_code"][2])),
+                    "account_code": "00" + short[:w - 2], "branch_code": conforming(rng, fi["branch_code"][2], len(fi["branch_code"][2]))})
     return out
 
 
@@ -281,9 +315,9 @@ def shard_national(arg):
     rec = Rec()
     start_budget(tier)
     quick = tier == "quick"
-    for p in range(2 if quick else 8):
+    for p in range(3 if quick else 10):
         calls = national_calls(rng, cc)
-        descs = rng.sample(calls, 2)
+        descs = rng.sample(calls, 2) if p != 1 else [calls[-1], calls[-3] if len(calls) >= 8 else calls[0]]
         n = enumerate_two_preemptions(rec, descs, 9 if quick else 1, "enum2-national")
         rec.classes[f"enum-national-{cc}"] += n
         if p == 0:
@@ -358,6 +392,9 @@ def first_use_pairs(rng):
                 {"op": "obj", "create": {"kind": "bic", "text": "MARKDEF1100"}, "what": "exists"}])
     out.append([{"op": "obj", "create": {"kind": "bic", "text": "MARKDEF1100"}, "what": "bank_names"},
                 {"op": "from_bank_code", "cc": "DE", "code": "10000000"}])
+    # first country-code checks of the process (third-party country database): countries far apart in its order
+    out.append([{"op": "bic", "text": "ABCDAF22"}, {"op": "bic", "text": "CABSZWHA"}])
+    out.append([{"op": "bic", "text": "GENODEM1GLS", "strict": True}, {"op": "bic", "text": "ABCDZM22XXX"}])
     for cc in rng.sample(o.countries(), 3):
         if o.positions(cc):
             t1, t2 = g.iban(cc, rng), g.iban(cc, rng)
@@ -431,8 +468,76 @@ def shard_locations(arg):
     return rec
 
 
+def shard_aged(arg):
+    """While call A (a value this process has seen before) is paused at a location, the other thread does a *lot* of work:
+    a burst of thousands of calls with values never seen in this process (bounded caches fill up, evict, get cleared).
+    A switch at every location of A; the burst runs untraced to its end; then A resumes and must still answer as alone."""
+    i, seed, tier = arg
+    import random
+    from ..lib import IBAN, SchwiftyException
+    rng = random.Random(f"{seed}:C14:aged:{i}")
+    rec = Rec()
+    start_budget(tier, quick_s=25, thorough_s=300)
+    g, o = gen(), oracle()
+    ccs = o.countries()
+    n_burst = 2600
+
+    def burst(seed_):
+        r = random.Random(seed_)
+        bad = 0
+        for _ in range(n_burst):
+            t = g.iban(r.choice(ccs), r)
+            try:
+                IBAN(t)
+            except SchwiftyException:
+                bad += 1
+        return bad
+
+    for _ in range(1 if tier == "quick" else 6):
+        kind = rng.choice(["iban", "iban-national", "from_bban", "generate"])
+        cc = rng.choice(ccs)
+        ta = g.iban(cc, rng)
+        A = ({"op": "iban", "text": ta} if kind == "iban" else {"op": "from_bban", "cc": cc, "bban": ta[4:]} if kind == "from_bban"
+             else {"op": "iban", "text": ta, "validate_bban": True} if kind == "iban-national" else national_calls(rng, "FR")[-1])
+        make_call(A)()
+        want_a, locs = sched.trace_locations(make_call(A), repo_root())
+        for L in locs:
+            if out_of_budget(rec):
+                break
+            bseed = rng.randrange(2 ** 32)
+            got, info = sched.run_concurrently([make_call(A), lambda: burst(bseed)], [], repo_root(), loc_points=[(0, L, 1, 1)],
+                                               untraced={1})
+            rec.evals += 1
+            rec.classes["burst-while-paused-schedules"] += 1
+            if info["switches"]:
+                rec.nt.add(hash((json.dumps(A, sort_keys=True), L, "burst")))
+            if tuple(got[0]) != tuple(want_a) or tuple(got[1]) != ("ok", 0):
+                rec.fail(f"interference|{A['op']}|with:burst-of-novel-validations", "concurrent_equals_alone",
+                         {"calls": [A], "loc_points": [[0, L, 1, 1]], "schedule": [], "origin": "burst-while-paused", "burst": n_burst,
+                          "burst_seed": bseed}, [list(want_a), ["ok", 0]], [list(x) for x in got])
+                break
+    rec.sample("burst-while-paused", {"burst": f"{n_burst} validations of valid IBANs never seen in this process, untraced",
+                                      "A": "a call repeated from before, paused at each of its locations in turn"})
+    return rec
+
+
+_OWN = []
+
+
+def own_files():
+    import os
+    if not _OWN:
+        names = set()
+        for dirpath, _, files in os.walk(os.path.join(repo_root(), "schwifty")):
+            names.update(f for f in files if f.endswith(".py"))
+        _OWN.append(names)
+    return _OWN[0]
+
+
 def shard_cold(arg):
     """The same enumeration in forks of the pristine zygote: both calls are the first calls of a fresh process."""
+    if arg[0] == "aged":
+        return shard_aged(arg[1:])
     i, seed, tier = arg
     import random
     import time
@@ -441,13 +546,16 @@ def shard_cold(arg):
     rec = Rec()
     state()
     zyg = Zygote()
-    t_end = time.time() + (20 if tier == "quick" else 240)
+    t_end = time.time() + (25 if tier == "quick" else 300)
     try:
-        pairs = first_use_pairs(rng)
-        extra = level_pairs(rng)
-        pairs += [extra[0], extra[3], extra[-1]]
-        if i % 2:
-            pairs.reverse()
+        # one list of pairs per seed, dealt out to the 16 shards (so that every kind of pair gets its share of the budget)
+        common = random.Random(f"{seed}:C14:cold:pairs")
+        pairs = []
+        for _ in range(2 if tier == "quick" else 6):
+            pairs += first_use_pairs(common)
+            extra = level_pairs(common)
+            pairs += [extra[0], extra[3], extra[-1]]
+        pairs = pairs[i::16]
         for descs in pairs:
             if time.time() > t_end:
                 break
@@ -455,28 +563,43 @@ def shard_cold(arg):
                 if time.time() > t_end:
                     break
                 want = [zyg.reference(d) for d in order]
-                tr = zyg.trace(order[0])
+                tp = order[0]["op"] == "bic"       # include the third-party frames the call runs through
+                tr = zyg.trace(order[0], third_party=tp)
                 if tr["outcome"] != ["ok", want[0]]:
                     raise HarnessError(f"traced cold run differs from untraced cold run: {order[0]}")
                 locs = tr["locs"]
                 if tier == "quick" and len(locs) > 40:
                     step = len(locs) // 40 + 1
                     locs = locs[:12] + locs[12::step]
+                # first arrival at every location; for locations passed repeatedly (loops) also the 2nd and a middle arrival
+                own = own_files()
+                later, first = [], []
                 for L in locs:
+                    c = tr.get("counts", {}).get(L, 1)
+                    mine = L.split(":")[0] in own
+                    if mine or not tp:
+                        first.append((L, 1))
+                    if c >= 2:
+                        later.append((L, 2))
+                    if c >= 6:
+                        later.append((L, c // 2))
+                # third-party frames: only arrivals inside their loops (the library's own lines come first-arrival as always)
+                points = (later + first) if tp else (first + later)
+                for L, occ in points:
                     if time.time() > t_end:
                         rec.notes.append("cold enumeration stopped at its time budget")
                         break
-                    r = zyg.concurrent(order, loc_points=[(0, L, 1, 1)])
+                    r = zyg.concurrent(order, loc_points=[(0, L, occ, 1)], third_party=tp)
                     rec.evals += 1
                     rec.classes["loc-cold-schedules"] += 1
                     if "error" in r:
                         raise HarnessError(f"scheduler error in cold run: {r['error']}")
                     if r["switches"]:
-                        rec.nt.add(hash((json.dumps(order, sort_keys=True), L, "cold")))
+                        rec.nt.add(hash((json.dumps(order, sort_keys=True), L, occ, "cold")))
                     got = r["outcomes"]
                     if got != [["ok", w] for w in want]:
                         rec.fail(f"interference|{order[0]['op']}|with:{order[1]['op']}|cold-start", "concurrent_equals_alone",
-                                 {"calls": order, "loc_points": [[0, L, 1, 1]], "schedule": [], "origin": "locations-cold", "cold": True},
+                                 {"calls": order, "loc_points": [[0, L, occ, 1]], "schedule": [], "origin": "locations-cold", "cold": True, "third_party": tp},
                                  [["ok", w] for w in want], got)
             rec.classes["loc-cold-pair"] += 1
         rec.sample("loc-cold", {"calls": pairs[0], "rule": "fork of pristine zygote per schedule; switch at first arrival at a location"})
@@ -557,9 +680,9 @@ def run(ctx):
                        "granularity: source line (opcode samples in thorough)"]
     ctx.pmap(shard_method, [(m, ctx.seed, ctx.tier) for m in st["impl"]])
     ctx.pmap(shard_locations, [(i, ctx.seed, ctx.tier) for i in range(16)])
-    ctx.pmap(shard_cold, [(i, ctx.seed, ctx.tier) for i in range(16)])
+    ctx.pmap(shard_cold, [(i, ctx.seed, ctx.tier) for i in range(16)] + [("aged", i, ctx.seed, ctx.tier) for i in range(16)])
     ctx.pmap(shard_national, [(cc, ctx.seed, ctx.tier) for cc in NATIONAL])
     ctx.pmap(shard_mixed, [(i, ctx.seed, ctx.tier) for i in range(16 if ctx.quick else 32)])
     ctx.hyp_explore(strategy(), hyp_body, ctx.pick(300, 6000), name="C14-hyp", shrink_s=ctx.pick(25, 200))
-    ctx.require_classes("loc-warm-schedules", "loc-cold-schedules", "loc-cold-pair", "mixed", "hyp", "random-2-threads", "random-3-threads", "random-national",
+    ctx.require_classes("burst-while-paused-schedules", "loc-warm-schedules", "loc-cold-schedules", "loc-cold-pair", "mixed", "hyp", "random-2-threads", "random-3-threads", "random-national",
                         *[f"enum-{m}" for m in st["impl"]], *[f"enum-national-{cc}" for cc in NATIONAL])
